@@ -121,7 +121,10 @@ def make_network(rng, tier, for_skel):
                                           'demands': [{'base': gnet._round(rng.uniform(0.0002, 0.002), 4), 'pattern': rng.choice(list(spec['patterns']) + [None]), 'category': None}]
                                           if rng.random() < 0.8 else [],
                                           'coordinates': [gnet._round(rng.uniform(0, 1000), 5), gnet._round(rng.uniform(0, 1000), 5)]})
-                spec['pipes'].append({'name': 'PB%d' % (len(spec['pipes']) + 1), 'start': at, 'end': nm, 'length': gnet._round(rng.uniform(20, 400), 4),
+                # nodes and links have separate name spaces (EPANET's numeric ids usually overlap): every third branch pipe
+                # carries the name of the junction it leads to
+                pname = nm if (len(spec['pipes']) + k) % 3 == 0 else 'PB%d' % (len(spec['pipes']) + 1)
+                spec['pipes'].append({'name': pname, 'start': at, 'end': nm, 'length': gnet._round(rng.uniform(20, 400), 4),
                                       'diameter': rng.choice([0.05, 0.08, 0.1, 0.15]), 'roughness': float(rng.choice([90, 100, 120])),
                                       'minor_loss': 0.0, 'status': 'OPEN', 'cv': False})
                 at = nm
@@ -146,8 +149,15 @@ def make_network(rng, tier, for_skel):
                 if u < 0.75 and tanks:
                     return {'kind': 'node', 'source': side.choice(tanks), 'attr': 'level', 'op': '<', 'threshold': 2.0}
                 return {'kind': 'link', 'source': side.choice(links), 'attr': 'flow', 'op': '>', 'threshold': 0.001}
+            shared = [j for j in juncs if j in links]
             for k in range(side.randint(1, 2)):
                 cond = leaf()
+                if shared and k == 0 and side.random() < 0.7:
+                    x = side.choice(shared)      # a condition on junction x and on the pipe of the same name
+                    cond = {'kind': side.choice(['or', 'and']), 'a': {'kind': 'node', 'source': x, 'attr': 'pressure', 'op': '<', 'threshold': 15.0},
+                            'b': {'kind': 'link', 'source': x, 'attr': 'flow', 'op': '>', 'threshold': 0.001}}
+                    if side.random() < 0.5:
+                        cond['a'], cond['b'] = cond['b'], cond['a']
                 for _ in range(side.choice([0, 1, 1, 2])):
                     a, b = (cond, leaf()) if side.random() < 0.6 else (leaf(), cond)
                     cond = {'kind': side.choice(['or', 'or', 'and']), 'a': a, 'b': b}
